@@ -148,6 +148,15 @@ Section C01_block.
       same (lev 0) (su (B p 0), sf (B p 0)) (su (R0 p), sf (R0 p)).
   Proof. exact (fun HL => controller_iteration_fixed_point kO kI kadd kmul ksub kopp keqb Rth keqb_true imex lev xf tstart lend P L HL Hlev Hxf Hcopy R0 H0 Hchain). Qed.
 
+  (* ... and the WHOLE RUN of a block: any predictor followed by any number n of iterations *)
+  Theorem C01_controller_run_fixed_point : 0 < L -> forall pt n nsw jacobi,
+    let ops := predict_ops P L pt ++ repeat_ops n (pfasst_iteration P L nsw jacobi) in
+    let B := run_ops kO kadd kmul ksub keqb imex lev xf tstart lend ops (init_block kO P R0) in
+    forall p, p < P ->
+      svalid (B p 0) = true /\
+      same (lev 0) (su (B p 0), sf (B p 0)) (su (R0 p), sf (R0 p)).
+  Proof. exact (fun HL => controller_run_fixed_point kO kI kadd kmul ksub kopp keqb Rth keqb_true imex lev xf tstart lend P L HL Hlev Hxf Hcopy R0 H0 Hchain). Qed.
+
   Theorem C01_controller_schedule_in_bounds : forall nsw jacobi, Forall (op_in_bounds L) (pfasst_iteration P L nsw jacobi).
   Proof. exact (pfasst_iteration_in_bounds L P). Qed.
   (* the predictors (fine_only, pfasst_burnin) are schedules of the same operations, tied to controller_nonMPI.predict by exact
@@ -157,6 +166,7 @@ Section C01_block.
 End C01_block.
 Print Assumptions C01_block_fixed_point_any_schedule.
 Print Assumptions C01_controller_iteration_fixed_point.
+Print Assumptions C01_controller_run_fixed_point.
 Print Assumptions C01_controller_schedule_in_bounds.
 Print Assumptions C01_predictor_schedule_in_bounds.
 
